@@ -2,6 +2,9 @@
 Line-protocol driver for the C13 model with SOFT floats (phase 2).  Same requests as Driver/C13:
   arith <op> <a> <b>     op ∈ add sub mul div floordiv mod pow   → "ok <value>" | "err <class>"
   neg <a>                                                         → same
+  raw <op> <a> <b>       op ∈ add sub mul div fmod remeuclid diveuclid, both operands floats
+                         → "<float>"  the soft-float operation itself, without number.rs in front
+                         (reaches the operands number.rs rejects, e.g. zero divisors)
 All float arithmetic (`+ - * / // %`, unary minus) is computed by the verified model
 `Tera.SoftFloat` (Model/SoftFloat.lean): no hardware `Float` is involved, except for `pow`
 (libm `powf`, a parameter of the model).
@@ -50,6 +53,22 @@ def handle (line : String) : String :=
   | "neg" :: rest =>
     match Wire.parseValue rest with
     | some (a, []) => showRes (negate ops a)
+    | _ => "bad-args"
+  | "raw" :: op :: rest =>
+    match Wire.parseValue rest with
+    | some (.f64 a, rest') =>
+      match Wire.parseValue rest' with
+      | some (.f64 b, []) =>
+        match op with
+        | "add" => Wire.showValue (.f64 (SoftFloat.add a b))
+        | "sub" => Wire.showValue (.f64 (SoftFloat.sub a b))
+        | "mul" => Wire.showValue (.f64 (SoftFloat.mul a b))
+        | "div" => Wire.showValue (.f64 (SoftFloat.div a b))
+        | "fmod" => Wire.showValue (.f64 (SoftFloat.fmod a b))
+        | "remeuclid" => Wire.showValue (.f64 (SoftFloat.remEuclid a b))
+        | "diveuclid" => Wire.showValue (.f64 (SoftFloat.divEuclid a b))
+        | _ => "bad-op"
+      | _ => "bad-args"
     | _ => "bad-args"
   | _ => "bad-request"
 
